@@ -29,7 +29,7 @@ def _nz(h, name, n, lo=-4, hi=4):
     s = 0.0
     for e in v:
         s = s + e * e
-    h.assume(h.ge(s, 1e-4))
+    h.assume(h.gt(s, 0.0))          # every non-zero vector, however small
     return v, s
 
 
